@@ -2,24 +2,25 @@ CONSTANTS
   Types <- T1
   TypeSeq <- T1s
   Owners <- O2
-  SubOpts <- OptPrio
+  SubOpts <- OptPaths
   AutoOpts <- AutoNone
-  RVs <- RVplain
-  UnsubModes = {"handler"}
+  RVs = {"none", "haltremove"}
+  UnsubModes = {"eid"}
   Forms = {"inst"}
   NoErrs = {FALSE}
   RaiseTypes <- TA
   SubTypes <- TA
   MaxSubs = 3
-  MaxRaises = 1
-  MaxUnsubs = 0
+  MaxRaises = 2
+  MaxUnsubs = 1
   MaxDepth = 2
   MaxOps = 1
   WithDrop = FALSE
-  Probes = 1
-  D = 3
+  RemovedMayBeSkipped = FALSE
+  Probes = 0
+  D = 7
 INIT Init
 NEXT Next
-VIEW viewE
-ACTION_CONSTRAINT ExportT
+CONSTRAINT Bound
+INVARIANT Export
 CHECK_DEADLOCK FALSE
